@@ -717,7 +717,7 @@ spec fn headers_below_unchanged(a: Map<Height, BlockHash>, b: Map<Height, BlockH
 }
 // C03: a block in progress is the current anchor
 spec fn wf_ingesting(s: &State) -> bool {
-    s.utxos.ingesting matches Some(h) ==> h == s.unstable_blocks.tree.root.block_hash && stable_child_spec(&s.unstable_blocks).is_some()
+    s.utxos.ingesting matches Some(h) ==> h == s.unstable_blocks.tree.root.block_hash
 }
 
 proof fn lemma_child_depth_smaller(t: &BlockTree<CachedBlock>, i: int)
@@ -729,7 +729,8 @@ proof fn lemma_child_depth_smaller(t: &BlockTree<CachedBlock>, i: int)
 
 //@extract file=canister/src/state.rs item="fn ingest_stable_blocks_into_utxoset" props=C03,C08
 //@ ret r
-//@ rewrite R9 "fn pop_block\(state: &mut State, ingested_block_hash: BlockHash\)( -> [\w:<>]+)? \{" => "fn pop_block(state: &mut State, ingested_block_hash: BlockHash)\1 requires tree_ok(&old(state).unstable_blocks), stable_child_spec(&old(state).unstable_blocks).is_some(), old(state).unstable_blocks.tree.root.block_hash == ingested_block_hash, old(state).utxos.next_height >= 1, old(state).utxos.next_height < u32::MAX, ensures final(state).utxos == old(state).utxos, final(state).unstable_blocks.next_block_headers.wf(), bodies_exact(&final(state).unstable_blocks), headers_below_unchanged(old(state).stable_block_headers.by_height@, final(state).stable_block_headers.by_height@, (old(state).utxos.next_height - 1) as Height), final(state).metrics == old(state).metrics, final(state).unstable_blocks.stability_threshold == old(state).unstable_blocks.stability_threshold, 0 <= stable_child_spec(&old(state).unstable_blocks).unwrap() < old(state).unstable_blocks.tree.children@.len(), final(state).unstable_blocks.tree == old(state).unstable_blocks.tree.children@[stable_child_spec(&old(state).unstable_blocks).unwrap()], {"
+//@ rewrite R10? "(unstable_blocks::pop\([^()]*\))\s*\.expect\(\"[^\"]*\"\)" => "(match \1 { Some(vp_b) => vp_b, None => vp_refuse() })"
+//@ rewrite R9 "fn pop_block\(state: &mut State, ingested_block_hash: BlockHash\)( -> [\w:<>]+)? \{" => "fn pop_block(state: &mut State, ingested_block_hash: BlockHash)\1 requires tree_ok(&old(state).unstable_blocks), old(state).unstable_blocks.tree.root.block_hash == ingested_block_hash, old(state).utxos.next_height >= 1, old(state).utxos.next_height < u32::MAX, ensures final(state).utxos == old(state).utxos, final(state).unstable_blocks.next_block_headers.wf(), bodies_exact(&final(state).unstable_blocks), headers_below_unchanged(old(state).stable_block_headers.by_height@, final(state).stable_block_headers.by_height@, (old(state).utxos.next_height - 1) as Height), final(state).metrics == old(state).metrics, final(state).unstable_blocks.stability_threshold == old(state).unstable_blocks.stability_threshold, 0 <= stable_child_spec(&old(state).unstable_blocks).unwrap() < old(state).unstable_blocks.tree.children@.len(), final(state).unstable_blocks.tree == old(state).unstable_blocks.tree.children@[stable_child_spec(&old(state).unstable_blocks).unwrap()], {"
 //@ spec
 //@| requires
 //@|     wf_ingesting(old(state)),
@@ -780,7 +781,8 @@ proof fn lemma_child_depth_smaller(t: &BlockTree<CachedBlock>, i: int)
 
 //@extract file=canister/src/state.rs item="fn ingest_stable_blocks_into_utxoset" props=C07 rename=ingest_stable_blocks_into_utxoset_c07
 //@ ret r
-//@ rewrite R9 "fn pop_block\(state: &mut State, ingested_block_hash: BlockHash\)( -> [\w:<>]+)? \{" => "fn pop_block(state: &mut State, ingested_block_hash: BlockHash)\1 requires tree_ok(&old(state).unstable_blocks), stable_child_spec(&old(state).unstable_blocks).is_some(), old(state).unstable_blocks.tree.root.block_hash == ingested_block_hash, old(state).utxos.next_height >= 1, old(state).utxos.next_height < u32::MAX, ensures final(state).utxos == old(state).utxos, final(state).unstable_blocks.next_block_headers.wf(), bodies_exact(&final(state).unstable_blocks), final(state).stable_block_headers.by_height@ == old(state).stable_block_headers.by_height@.insert((old(state).utxos.next_height - 1) as Height, ingested_block_hash), final(state).metrics == old(state).metrics, final(state).unstable_blocks.stability_threshold == old(state).unstable_blocks.stability_threshold, 0 <= stable_child_spec(&old(state).unstable_blocks).unwrap() < old(state).unstable_blocks.tree.children@.len(), final(state).unstable_blocks.tree == old(state).unstable_blocks.tree.children@[stable_child_spec(&old(state).unstable_blocks).unwrap()], {"
+//@ rewrite R10? "(unstable_blocks::pop\([^()]*\))\s*\.expect\(\"[^\"]*\"\)" => "(match \1 { Some(vp_b) => vp_b, None => vp_refuse() })"
+//@ rewrite R9 "fn pop_block\(state: &mut State, ingested_block_hash: BlockHash\)( -> [\w:<>]+)? \{" => "fn pop_block(state: &mut State, ingested_block_hash: BlockHash)\1 requires tree_ok(&old(state).unstable_blocks), old(state).unstable_blocks.tree.root.block_hash == ingested_block_hash, old(state).utxos.next_height >= 1, old(state).utxos.next_height < u32::MAX, ensures final(state).utxos == old(state).utxos, final(state).unstable_blocks.next_block_headers.wf(), bodies_exact(&final(state).unstable_blocks), final(state).stable_block_headers.by_height@ == old(state).stable_block_headers.by_height@.insert((old(state).utxos.next_height - 1) as Height, ingested_block_hash), final(state).metrics == old(state).metrics, final(state).unstable_blocks.stability_threshold == old(state).unstable_blocks.stability_threshold, 0 <= stable_child_spec(&old(state).unstable_blocks).unwrap() < old(state).unstable_blocks.tree.children@.len(), final(state).unstable_blocks.tree == old(state).unstable_blocks.tree.children@[stable_child_spec(&old(state).unstable_blocks).unwrap()], {"
 //@ spec
 //@| requires
 //@|     wf_ingesting(old(state)),
@@ -988,7 +990,7 @@ impl<'a> BlockValidator<'a> {
     { unimplemented!() }
 }
 
-//@extract file=canister/src/state.rs item="fn insert_block" props=C10
+//@extract file=canister/src/state.rs item="fn insert_block" props=C10,C12
 //@ ret r
 //@ spec
 //@| requires
